@@ -408,3 +408,6 @@ func trunc(b []byte, n int) []byte {
 
 // Balances0 returns the recorded balances of a (zero coins when not tracked).
 func (v *LedgerView) Balances0(a common.Address) sdk.Coins { return v.Balances[a] }
+
+// ResetPending forgets nonces planned for the block just executed.
+func (w *World) ResetPending() { w.pending = map[common.Address]uint64{} }
